@@ -415,6 +415,12 @@ bool ManifestParser::ParseEdge(string* err) {
       return lexer_.Error("dyndep '" + dyndep + "' is not an input", err);
     }
     assert(!edge->dyndep_->generated_by_dep_loader());
+    // DyndepLoader::UpdateEdge adds bindings (restat) to the edge's scope.
+    // When the dyndep binding comes from the rule and the statement has no
+    // bindings of its own, that scope is the enclosing file's: give the edge
+    // its own so that they do not leak to every other statement.
+    if (edge->env_ == env_)
+      edge->env_ = new BindingEnv(env_);
   }
 
   return true;
